@@ -16,7 +16,7 @@ EXPLANATION = ("Def-use and order facts that hold for every schedule if they hol
                "before dispatch and decremented + notified by the worker after it has sent its result. That every address resolves to "
                "its own bytes under all schedules is not decided (C01/C14 layout rules cover the encoding)."
                " (R5) finalize hands both open clusters to the writer, joins, then writes the tables; (R6) the table positions recorded in the header are tell() taken right before the table is written, never computed from a cluster address."
-               ' Added later: (R7) positions are asked of the buffering stream (= C01-R19); (R8) a Late<T> slot owns its value (clones made by resize do not alias).')
+               ' Added later: (R7) positions are asked of the buffering stream (= C01-R19); (R8) a Late<T> slot owns its value (clones made by resize do not alias). (R9) the number of compression workers has a floor of one.')
 ASSUMPTIONS = ["std mpsc / spmc channels deliver each message once", "rustc MIR construction and trait resolution"]
 
 
